@@ -213,7 +213,7 @@ func unionSpace(pools [][]Input) func(emit func(Input)) {
 			if p == k {
 				// all interleavings
 				pos := make([]int, k)
-				var e []int       // union edge list over (part, node) pairs encoded as part*1000+node
+				var e []int // union edge list over (part, node) pairs encoded as part*1000+node
 				var rec func()
 				rec = func() {
 					done := true
